@@ -67,6 +67,8 @@ struct Shared {
     results: HashMap<usize, Vec<&'static str>>,
     done: HashMap<usize, bool>,
     sids: HashMap<usize, u32>,
+    /// next stream id the session will allocate (ids are handed out sequentially from 1 by open_stream)
+    next_sid: u32,
     /// tasks that were granted a step at a lock-acquiring point and have not reached a new point yet
     last_point: HashMap<usize, String>,
     /// set by a task whose call was not ready (it re-parked at h.call without progress)
@@ -147,6 +149,7 @@ async fn settle() {
 
 async fn run_case(start: bool, groups: Vec<Vec<Call>>, sched: Vec<usize>) -> String {
     let sh: Sh = Arc::new(Mutex::new(Shared::default()));
+    sh.lock().unwrap().next_sid = 1;
     let (reader, feed_tx) = ChanReader::new();
     let (writer, wh) = RecWriter::new(None);
     let session = Arc::new(Session::new_client(reader, writer, index_scheme(), None));
@@ -207,9 +210,17 @@ async fn run_case(start: bool, groups: Vec<Vec<Call>>, sched: Vec<usize>) -> Str
                             };
                         }
                         Call::Open => {
+                            // the id is allocated (and registered) right after the closed check, before the
+                            // first scheduling point: record it now so that frames fed meanwhile can address it
+                            if !s.is_closed() {
+                                let mut g = sh2.lock().unwrap();
+                                let sid = g.next_sid;
+                                g.next_sid += 1;
+                                g.sids.insert(i, sid);
+                            }
                             break match s.open_stream().await {
                                 Ok((st, rx)) => {
-                                    sh2.lock().unwrap().sids.insert(i, st.id());
+                                    assert_eq!(sh2.lock().unwrap().sids.get(&i).copied(), Some(st.id()));
                                     stream = Some(st);
                                     synack_rx = Some(rx);
                                     verdict_taken = None;
